@@ -142,7 +142,12 @@ fn wide_spelled() -> BoxedStrategy<Spelled> {
             1 => Just(RVal::Marker),
         ]
     };
-    bx((prop::collection::vec(small(), 200..420), any::<bool>(), choices()).prop_map(|(items, as_grid, choices)| {
+    let items = prop_oneof![
+        3 => prop::collection::vec(small(), 200..420),
+        // several hundred of one sort (what leaks or accumulates per item shows once the count passes a limit)
+        1 => (260usize..700, small()).prop_map(|(n, x)| vec![x; n]),
+    ];
+    bx((items, any::<bool>(), choices()).prop_map(|(items, as_grid, choices)| {
         let v = if as_grid {
             RVal::Grid(RGrid {
                 meta: None,
@@ -157,7 +162,7 @@ fn wide_spelled() -> BoxedStrategy<Spelled> {
 }
 
 pub fn run(ctx: &mut Ctx) {
-    ctx.rule("A: generated well-formed value -> libhaystack Zinc text -> independent strict grammar reader must accept it and read the same value. B: generated (value, spelling choices) -> independent writer (whitespace, LF/CRLF, string/uri escapes, number spellings with sign/fraction/exponent/'_'/long mantissas, trailing comma, dict separators, marker ':M', grid layout, N vs empty cell, Z vs Z UTC, any unit id) -> libhaystack decoder must read the same value, from a string and from a reader that delivers the text in pieces; also for wide documents (200-420 sibling small collections - empty and one-row nested grids, empty lists / dicts - in one list or as the cells of one grid). non-trivial: A not a singleton kind, B at least one non-default spelling choice; distinct by text");
+    ctx.rule("A: generated well-formed value -> libhaystack Zinc text -> independent strict grammar reader must accept it and read the same value. B: generated (value, spelling choices) -> independent writer (whitespace, LF/CRLF, string/uri escapes, number spellings with sign/fraction/exponent/'_'/long mantissas, trailing comma, dict separators, marker ':M', grid layout, N vs empty cell, Z vs Z UTC, any unit id) -> libhaystack decoder must read the same value, from a string and from a reader that delivers the text in pieces; also for wide documents (200-700 sibling small collections - empty and one-row nested grids, empty lists / dicts - in one list or as the cells of one grid). non-trivial: A not a singleton kind, B at least one non-default spelling choice; distinct by text");
     ctx.assume("the reference writer/reader implement DESIGN.md appendix A; spellings the specification leaves open are never written; number denotation = Rust's correctly rounded str::parse::<f64>; unit identifiers from unit-gen/units.txt");
     let depth = ctx.tier.pick(3, 4) as u32;
     // oracle self-test first: failure is an infrastructure problem, not a finding
